@@ -40,7 +40,15 @@ def main():
     for pid in sorted(claimed):
         c = claimed[pid]
         if c["note"] == "R":
-            c = dict(c, note=NOTE_R)
+            note = NOTE_R
+            if pid in ("C03", "C06", "C08"):
+                note = NOTE_R.replace("No axioms.", "Axioms: none declared; the simulation theorems of this property "
+                                      "(outcome switch / timeout removal) depend on the standard-library axiom "
+                                      "functional_extensionality_dep, as Print Assumptions reports in the evidence file; "
+                                      "all other theorems are closed.")
+            note += (" Concrete failing inputs are searched with the executable monitors (within the prefix of the history "
+                     "that the model accepts) and with the direct trace oracles of harness/oracles.py.")
+            c = dict(c, note=note)
         checks.append({
             "property_id": pid,
             "quick_cmd": "./check %s --tier quick" % pid,
